@@ -12,22 +12,7 @@ sys.path.insert(0, VERIF)
 PROPS = sorted(f[:-3].upper() for f in os.listdir(os.path.join(VERIF, "rules")) if f.startswith("c") and f[1:-3].isdigit())
 
 
-def overlay_for(patch):
-    """apply the patch in a throw-away copy of the touched files and return {relpath: new source}"""
-    tmp = tempfile.mkdtemp(prefix="seedov_")
-    try:
-        files = [l[6:].strip() for l in open(patch) if l.startswith("+++ b/")]
-        for f in files:
-            os.makedirs(os.path.dirname(os.path.join(tmp, f)), exist_ok=True)
-            shutil.copy(os.path.join("/repo", f), os.path.join(tmp, f))
-        r = subprocess.run(["patch", "-p1", "-s", "-i", patch], cwd=tmp, capture_output=True, text=True)
-        if r.returncode != 0:
-            r = subprocess.run(["git", "apply", "--unsafe-paths", "--directory", tmp, patch], cwd="/", capture_output=True, text=True)
-            if r.returncode != 0:
-                return None, r.stdout + r.stderr
-        return {f: open(os.path.join(tmp, f)).read() for f in files}, ""
-    finally:
-        shutil.rmtree(tmp, ignore_errors=True)
+from sa.patchov import overlay_for  # noqa: E402
 
 
 def job(args):
